@@ -11,7 +11,9 @@ RULES = {"C09.a", "C09.b", "C09.c", "C09.d", "C09.e", "C09.f"}
 
 def check(ctx):
     ctx.assume("set_offset is only called with offsets on character boundaries that were already scanned (property quantifier)")
-    cursor.analyze(ctx, RULES)
+    # (C10.a: the public iterator and the position adaptor forward `position` / `set_offset` / `next` to the implementation as
+    # they are — a wrapper that clamps, caches or filters a queried offset answers for another offset than the one asked)
+    cursor.analyze(ctx, RULES | {"C10.a"})
     from . import adaptors
     adaptors.analyze(ctx, ("C09.g",))
     from .common import cache_foundation
